@@ -115,14 +115,15 @@ impl Wb for Xlsx<Cur> {
             Op::MergeCells(n) => format!("{:?}", self.worksheet_merge_cells(n).map(|r| r.map_err(|e| super::c01::err_variant(&e)))),
             Op::MergeCellsAt(i) => format!("{:?}", self.worksheet_merge_cells_at(*i).map(|r| r.map_err(|e| super::c01::err_variant(&e)))),
             Op::LoadMerged => format!("{:?}", self.load_merged_regions().map_err(|e| super::c01::err_variant(&e))),
-            Op::MergedRegions => {
-                let _ = self.load_merged_regions();
-                format!("{:?}", self.merged_regions())
-            }
-            Op::MergedBySheet(n) => {
-                let _ = self.load_merged_regions();
-                format!("{:?}", self.merged_regions_by_sheet(n))
-            }
+            // (merged_regions panics by contract unless the load succeeded)
+            Op::MergedRegions => match self.load_merged_regions() {
+                Ok(()) => format!("{:?}", self.merged_regions()),
+                Err(e) => format!("load failed: {}", super::c01::err_variant(&e)),
+            },
+            Op::MergedBySheet(n) => match self.load_merged_regions() {
+                Ok(()) => format!("{:?}", self.merged_regions_by_sheet(n)),
+                Err(e) => format!("load failed: {}", super::c01::err_variant(&e)),
+            },
             Op::LoadTables => format!("{:?}", self.load_tables().map_err(|e| super::c01::err_variant(&e))),
             Op::TableNames => {
                 let _ = self.load_tables();
@@ -315,6 +316,14 @@ fn run_history<W: Wb>(fmt: &str, open: &dyn Fn() -> Option<W>, book: &MBook, has
             script.push((Some(h1), Op::Table(t.clone())));
             out.feat("scripted:table_across_header_change");
         }
+        // the lazily filled caches: loading twice, reading in between
+        script.push((None, Op::LoadMerged));
+        script.push((None, Op::MergedRegions));
+        script.push((None, Op::LoadMerged));
+        script.push((None, Op::MergedRegions));
+        script.push((None, Op::LoadTables));
+        script.push((None, Op::TableNames));
+        script.push((None, Op::LoadTables));
         script.push((Some(h1), Op::Range(n.clone())));
         script.push((Some(h2), Op::Range(n.clone())));
         script.push((None, Op::RangeRef(n.clone())));
@@ -509,6 +518,21 @@ fn break_one_sheet(xlsx: &[u8]) -> Option<Vec<u8>> {
         .position(|p| is_sheet(&p.name) && with_table.iter().any(|f| p.name.ends_with(f.as_str())))
         .or_else(|| parts.iter().rposition(|p| is_sheet(&p.name)))?;
     let d = parts[at].data.clone();
+    // every other time: a malformed mergeCell reference instead (the cell data stay readable,
+    // the merged-region scan of the workbook fails at this sheet)
+    static FLIP: std::sync::atomic::AtomicU64 = std::sync::atomic::AtomicU64::new(0);
+    let mkey = b"mergeCell ref=\"";
+    if FLIP.fetch_add(1, std::sync::atomic::Ordering::Relaxed) % 2 == 1 {
+        if let Some((pi, mp)) = parts.iter().enumerate().find_map(|(pi, p)| if is_sheet(&p.name) { p.data.windows(mkey.len()).position(|w| w == mkey).map(|x| (pi, x)) } else { None }) {
+            let mut nd = parts[pi].data[..mp + mkey.len()].to_vec();
+            nd.extend_from_slice(b"A1:?");
+            let rest = &parts[pi].data[mp + mkey.len()..];
+            let q = rest.iter().position(|b| *b == b'"')?;
+            nd.extend_from_slice(&rest[q..]);
+            parts[pi].data = nd;
+            return Some(crate::enc::zipw::build(&parts));
+        }
+    }
     let key = b"sheetData>";
     let pos = d.windows(key.len()).position(|w| w == key)?;
     if pos > 0 && d[pos - 1] == b'/' {
